@@ -79,7 +79,7 @@ def gen_cases(ctx):
 
 
 def run(ctx):
-    if not srv.prepare(ctx):
+    if not srv.prepare(ctx, ['ReaderLoop.v']):
         return
     if ctx.replay and 'stream_cases' in ctx.replay:
         srv.replay_streams(ctx)
